@@ -543,6 +543,11 @@ impl JpegBitstreamReconstructor<'_, '_, '_> {
 
                 let comps = &si.component_info;
                 for c in comps {
+                    // The frame has three channels, whatever the reconstruction data lists.
+                    if c.comp_idx >= 3 {
+                        tracing::error!(c.comp_idx, "Component index out of range");
+                        return Err(Error::InvalidData);
+                    }
                     let id = self
                         .header
                         .components
